@@ -185,3 +185,307 @@ mut("C04-penlower-unguarded", "C04", [(MOT3, """        if (self.port is None) o
             str_output = f'SP,0,{pen_delay},{pin}'""")],
     "guard delegated to command(): still blocked, so this one is EQUIVALENT under C04 "
     "(command() re-checks err) - expected to be missed")
+
+# ------------------------------------------------------------------------------- C05
+mut("C05-retry-24", "C05", [(SER3, """            while len(response) == 0 and n_retry_count < 25:
+                # get new response to replace null response if necessary
+                response = self.port.readline().decode('ascii').strip()
+                n_retry_count += 1
+
+            if not response.startswith(cmd_name):""", """            while len(response) == 0 and n_retry_count < 24:
+                # get new response to replace null response if necessary
+                response = self.port.readline().decode('ascii').strip()
+                n_retry_count += 1
+
+            if not response.startswith(cmd_name):""")], "command() gives up one read early")
+mut("C05-name-in", "C05", [(SER3, "        if ('Err:' in response) or (not response.startswith(qry_name)):",
+                            "        if ('Err:' in response) or (qry_name not in response):")],
+    "query accepts a reply that merely contains the name")
+mut("C05-no-single-letter-args", "C05", [(SER3, """        elif cmd[1] == ',':
+            cmd_name = cmd[0]       # Case of single-letter command with arguments.
+        else:""", """        else:""")], "one-letter command with arguments: name taken as two characters")
+mut("C05-narrow-except", "C05", [(SER3, """        except (serial.SerialException, IOError, RuntimeError, OSError):
+            if qry_name.lower() not in ["rb", "r", "bl"]: # Ignore err on these commands""",
+                                  """        except serial.SerialException:
+            if qry_name.lower() not in ["rb", "r", "bl"]: # Ignore err on these commands""")])
+mut("C05-write-in-retry", "C05", [(SER3, """            while len(response) == 0 and n_retry_count < 25:
+                # get new response to replace null response if necessary
+                response = self.port.readline().decode('ascii').strip()
+                n_retry_count += 1
+
+        except (serial.SerialException, IOError, RuntimeError, OSError):
+            if qry_name""", """            while len(response) == 0 and n_retry_count < 25:
+                # get new response to replace null response if necessary
+                self.port.write((qry + '\\r').encode('ascii'))
+                response = self.port.readline().decode('ascii').strip()
+                n_retry_count += 1
+
+        except (serial.SerialException, IOError, RuntimeError, OSError):
+            if qry_name""")], "query re-sent on every empty read")
+mut("C05-header-always", "C05", [(SER3, """            if response[header_len] == ',': # Check if character after query is a comma.
+                header_len += 1             # If so, strip it out of response too.""",
+                                  """            header_len += 1             # strip separator""")],
+    "payload that follows the name without a comma loses its first character")
+mut("C05-revert-voltage", "C05", [(MOT3, """        response = self.query('QC')
+        if response is None:
+            return None  # Error while querying; already recorded in self.err.
+        split_string = response.split(",", 1)""", """        split_string = self.query('QC').split(",", 1)""")],
+    "revert of fix 591a11e")
+mut("C05-revert-nickname", "C05", [(SER3, """            if not self.command('ST,' + nickname):
+                return False
+            self.name = nickname""", """            self.command('ST,' + nickname)
+            self.name = nickname""")], "revert of fix 6d5faa1")
+mut("C05-revert-statusbyte", "C05", [(SER3, """                self.record_error(error_msg)
+                return None
+
+        except (serial.SerialException, IOError, RuntimeError, OSError):
+            error_msg = 'USB communication error after status byte query'""", """                self.record_error(error_msg)
+
+        except (serial.SerialException, IOError, RuntimeError, OSError):
+            error_msg = 'USB communication error after status byte query'""")], "revert of fix b200688")
+mut("C05-steps-deref", "C05", [(MOT3, """        result = self.query('QS') # Query global step position
+        if self.err:
+            return None
+""", """        result = self.query('QS') # Query global step position
+""")], "query_steps dereferences a failed query result")
+mut("C05-cmd-strip-lost", "C05", [(SER3, "        cmd = cmd.strip() # Remove leading, trailing whitespace, if any.",
+                                   "        cmd = cmd.lstrip() # Remove leading whitespace, if any.")],
+    "trailing whitespace is transmitted before the carriage return")
+
+# ------------------------------------------------------------------------------- C06
+mut("C06-xy-order", "C06", [(MOT3, "        str_output = f'SM,{duration},{delta_y},{delta_x}'",
+                             "        str_output = f'SM,{duration},{delta_x},{delta_y}'")])
+mut("C06-chunk-751", "C06", [(MOT, """            if n_pause > 750:
+                time_delay = 750""", """            if n_pause > 751:
+                time_delay = 751""")])
+mut("C06-clamp-4", "C06", [(MOT, "    res = min(res, 5)", "    res = min(res, 4)")])
+mut("C06-revert-absmove", "C06", [(MOT, "        if (position1 is not None) and (position2 is not None):",
+                                   "        if position1 and position2:")], "revert of fix 636af18")
+mut("C06-revert-pin", "C06", [(MOT3, """        if pin is not None:
+            str_output = f'SP,1,{pen_delay},{pin}'""", """        if pin:
+            str_output = f'SP,1,{pen_delay},{pin}'""")], "partial revert of fix ffcd052 (pen_raise only)")
+mut("C06-pd-direction", "C06", [(MOT3, "        self.command(f'PD,B,{pin},{direction}') # Configure I/O pin as output or input",
+                                 "        self.command(f'PD,B,{pin},0') # Configure I/O pin as output or input")])
+mut("C06-lm-or", "C06", [(MOT, """        if ((rate1 == 0 and accel1 == 0) or steps1 == 0) and\\
+                ((rate2 == 0 and accel2 == 0) or steps2 == 0):""", """        if ((rate1 == 0 and accel1 == 0) or steps1 == 0) or\\
+                ((rate2 == 0 and accel2 == 0) or steps2 == 0):""")],
+    "low-level move suppressed when only one axis cannot move")
+mut("C06-pause-max1", "C06", [(MOT3, "                time_delay = max(pause_time, 1) # don't allow zero-time moves",
+                               "                time_delay = max(pause_time, 2) # don't allow zero-time moves")],
+    "a remaining pause of 1 ms is sent as 2 ms")
+mut("C06-sc-index", "C06", [(MOT, "        ebb_serial.command(port_name, 'SC,11,{0}\\r'.format(pen_up_rate), verbose)",
+                             "        ebb_serial.command(port_name, 'SC,12,{0}\\r'.format(pen_up_rate), verbose)")],
+    "pen-up rate written to the pen-down rate register")
+mut("C06-sr-state0", "C06", [(MOT3, """        if state is None:
+            str_output = f'SR,{timeout_ms}'""", """        if not state:
+            str_output = f'SR,{timeout_ms}'""")], "servo_timeout drops state=0 (power off now)")
+
+# ------------------------------------------------------------------------------- C08
+mut("C08-xmin-xmax", "C08", [(PU, """            x_new = x_max # Find intersection of our segment with x_max
+            slope = (y_2 - y_1) / (x_2 - x_1)
+            y_new = slope * (x_max - x_1) + y_1""", """            x_new = x_max # Find intersection of our segment with x_max
+            slope = (y_2 - y_1) / (x_2 - x_1)
+            y_new = slope * (x_min - x_1) + y_1""")])
+mut("C08-slope", "C08", [(PU, """            y_new = y_min  # Find intersection of our segment with y_min
+            slope = (x_2 - x_1) / (y_2 - y_1)""", """            y_new = y_min  # Find intersection of our segment with y_min
+            slope = (y_2 - y_1) / (x_2 - x_1)""")])
+mut("C08-trivial-reject", "C08", [(PU, "        if code_1 & code_2:\n            return False, segment",
+                                   "        if code_1 == code_2:\n            return False, segment")])
+mut("C08-failsafe", "C08", [(PU, "        if iterations > 3: # Failsafe", "        if iterations > 1: # Failsafe")])
+mut("C08-endpoint", "C08", [(PU, "        if code == code_1:\n            x_1 = x_new", "        if code == code_2:\n            x_1 = x_new")])
+mut("C08-clipcode-ge", "C08", [(PU, "    if x_in > x_max:\n        code |= 2 # Right", "    if x_in >= x_max:\n        code |= 2 # Right")],
+    "points exactly on the right edge count as outside")
+
+# ------------------------------------------------------------------------------- C09
+mut("C09-slice", "C09", [(PU, "        vertices[start_index + 1:end_index - 1] = []", "        vertices[start_index + 1:end_index] = []")])
+mut("C09-skip2", "C09", [(PU, "        vertices[start_index + 1:end_index - 1] = [] # delete (start_index, end_index), exclusive\n        start_index += 1",
+                          "        vertices[start_index + 1:end_index - 1] = [] # delete (start_index, end_index), exclusive\n        start_index += 2")])
+mut("C09-tol-gt", "C09", [(PU, "        if (temp * temp / seg_length_squared) >= tol_squared:", "        if (temp * temp / seg_length_squared) > tol_squared * 1.5:")])
+mut("C09-past-end", "C09", [(PU, "            if ((p_x - seg_1x)*(p_x - seg_1x) + (p_y - seg_1y)*(p_y - seg_1y)) >= tol_squared:",
+                             "            if ((p_x - seg_0x)*(p_x - seg_0x) + (p_y - seg_1y)*(p_y - seg_1y)) >= tol_squared:")],
+    "vertex projecting beyond the segment end measured against the wrong corner")
+mut("C09-before-start", "C09", [(PU, "        if temp1 <= 0:\n            if ( dx_p_s0 * dx_p_s0 + dy_p_s0 * dy_p_s0 ) >= tol_squared:\n                return False\n            continue",
+                                 "        if temp1 <= 0:\n            continue")],
+    "vertices projecting before the segment start are always in tolerance (sharp reversals)")
+
+# ------------------------------------------------------------------------------- C10
+mut("C10-handle", "C10", [(PU, "        s_p[i][0] = two[2]", "        s_p[i][0] = two[1]")])
+mut("C10-node", "C10", [(PU, "        p_list = [one[2], one[3], two[1]]", "        p_list = [one[2], one[3], two[2]]")])
+mut("C10-split-04", "C10", [(PU, "        one, two = bezmisc.beziersplitatt(b_list, 0.5)", "        one, two = bezmisc.beziersplitatt(b_list, 0.4)")],
+    "same curve, still flat - breaks only the dyadic-interval clause")
+mut("C10-flat-first-only", "C10", [(PU, "            b_list = (p_0, p_1, p_2, p_3)\n\n            if not points_in_tolerance(b_list, flat):",
+                                    "            b_list = (p_0, p_1, p_2, p_3)\n\n            if not points_in_tolerance((p_0, p_1, p_3), flat):")])
+
+# ------------------------------------------------------------------------------- C11
+mut("C11-wrong-set", "C11", [(PU, '        if par_align in {"xminymin", "xmidymin", "xmaxymin"}:', '        if par_align in {"xminymin", "xmidymin", "xmaxymid"}:')])
+mut("C11-no-half", "C11", [(PU, "            o_y = -min_y + excess_height / 2", "            o_y = -min_y + excess_height")])
+mut("C11-ar-flip", "C11", [(PU, '    if (((ar_doc >= ar_vb) and (par_mos == "meet"))', '    if (((ar_doc <= ar_vb) and (par_mos == "meet"))')])
+mut("C11-defer-index", "C11", [(PU, "                    par_align = par_array[1]\n", "                    par_align = par_array[0]\n")])
+mut("C11-no-lower", "C11", [(PU, "        par_array = p_a_r.strip().replace(',', ' ').lower().split()", "        par_array = p_a_r.strip().replace(',', ' ').split()")])
+mut("C11-revert-valueerror", "C11", [(PU, """    try:
+        min_x = float(vb_array[0]) # viewbox offset: x
+        min_y = float(vb_array[1]) # viewbox offset: y
+        width = float(vb_array[2]) # viewbox width
+        height = float(vb_array[3]) # viewbox height
+    except ValueError:
+        return 1, 1, 0, 0 # invalid viewbox; return default transform
+""", """    min_x = float(vb_array[0]) # viewbox offset: x
+    min_y = float(vb_array[1]) # viewbox offset: y
+    width = float(vb_array[2]) # viewbox width
+    height = float(vb_array[3]) # viewbox height
+""")], "revert of the vb_scale fix")
+mut("C11-xmax-slack", "C11", [(PU, "        o_x = -min_x + excess_width # Case: X-Max", "        o_x = -min_x - excess_width # Case: X-Max")])
+
+# ------------------------------------------------------------------------------- C12
+mut("C12-q-const", "C12", [(PU, "        return float(value) * PX_PER_INCH / 101.6", "        return float(value) * PX_PER_INCH / 100.0")])
+mut("C12-pt-const", "C12", [(PU, "        return float(distance_uu) / (PX_PER_INCH / 72.0)", "        return float(distance_uu) / (PX_PER_INCH / 72.27)")])
+mut("C12-pc-inches", "C12", [(PU, "        if unit == 'pc':\n            return float(value) / 6.0", "        if unit == 'pc':\n            return float(value) / 12.0")])
+mut("C12-getlength-cm", "C12", [(PU, """        if unit == 'cm':
+            return float(value) * PX_PER_INCH / 2.54
+        if unit in ('Q', 'q'):
+            return float(value) * PX_PER_INCH / (40.0 * 2.54)""", """        if unit == 'cm':
+            return float(value) * PX_PER_INCH / 2.45
+        if unit in ('Q', 'q'):
+            return float(value) * PX_PER_INCH / (40.0 * 2.54)""")])
+mut("C12-inches-px90", "C12", [(PU, "            return float(value) / 96.0", "            return float(value) / 90.0")])
+mut("C12-em-as-mm", "C12", [(PU, "    elif string[-2:] == 'mm':  # millimeters", "    elif string[-2:] in ('mm', 'em'):  # millimeters")],
+    "unsupported unit em silently read as millimetres")
+
+# ------------------------------------------------------------------------------- C13
+mut("C13-adjacency", "C13", [(SG, "                    if y_row < max_bin:\n                        self.adjacents[index_i].append(index_i + self.bins_per_side - 1)",
+                              "                    if y_row < max_bin:\n                        self.adjacents[index_i].append(index_i + self.bins_per_side)")])
+mut("C13-remove-reverse", "C13", [(SG, "            cell_number = self.lookup[other_index]\n            self.grid[cell_number].remove(other_index)",
+                                   "            cell_number = self.lookup[other_index]")], "removal forgets the reversed end")
+mut("C13-lookup-index", "C13", [(SG, "                self.lookup[self.path_count + index_i] = grid_index", "                self.lookup[index_i] = grid_index")])
+mut("C13-no-clamp", "C13", [(SG, "        x_bin = max(min(math.floor((vertex_in[0] - self.xmin) / self.bin_size_x), max_bin), 0)",
+                             "        x_bin = max(math.floor((vertex_in[0] - self.xmin) / self.bin_size_x), 0)")])
+mut("C13-dist-gt", "C13", [(SG, """                dist = plot_utils.square_dist(vertex_in, vertex)
+                if dist < best_dist:
+                    best_dist = dist
+                    best_index = path_index
+        return best_index""", """                dist = plot_utils.square_dist(vertex_in, vertex)
+                if dist > best_dist:
+                    best_dist = dist
+                    best_index = path_index
+        return best_index""")], "global fallback keeps the farthest end")
+mut("C13-fallthrough-reset", "C13", [(SG, "        if best_index:\n            return best_index\n", "        if best_index:\n            return best_index\n        best_dist = math.inf\n")],
+    "index-0 fall-through combined with a reset of the best distance")
+mut("C13-reverse-vertex", "C13", [(SG, """                if path_index >= self.path_count: # new path is reversed
+                    vertex = self.vertices[path_index - self.path_count][1]
+                else:
+                    vertex = self.vertices[path_index][0] # Beginning of next path""", """                if path_index >= self.path_count: # new path is reversed
+                    vertex = self.vertices[path_index - self.path_count][0]
+                else:
+                    vertex = self.vertices[path_index][0] # Beginning of next path""")],
+    "reversed ends measured at the path start")
+
+# ------------------------------------------------------------------------------- C14
+mut("C14-revert-strict", "C14", [(RT, "if x_1 <= center_x and y_1 <= center_y", "if x_1 < center_x and y_1 < center_y")],
+    "partial revert of the rtree fix (first quadrant only)")
+mut("C14-touch", "C14", [(RT, "            is_disjoint = x_1 > xmax or y_1 > ymax or x_2 < xmin or y_2 < ymin\n            if not is_disjoint:\n                ids.add(i)",
+                          "            is_disjoint = x_1 >= xmax or y_1 > ymax or x_2 < xmin or y_2 < ymin\n            if not is_disjoint:\n                ids.add(i)")],
+    "touching on the right edge no longer counts")
+mut("C14-prune", "C14", [(RT, "is_disjoint = x_1 > subt.xmax or y_1 > subt.ymax or x_2 < subt.xmin or y_2 < subt.ymin",
+                          "is_disjoint = x_1 > subt.xmax or y_1 > subt.ymax or x_2 <= subt.xmin or y_2 < subt.ymin")])
+mut("C14-leaf-rule", "C14", [(RT, "        if max(map(len, sub_bboxes)) == len(bboxes):", "        if min(map(len, sub_bboxes)) >= len(bboxes):")],
+    "leaf rule on the smallest quadrant: unbounded recursion")
+mut("C14-center", "C14", [(RT, "            center_y += (ymin/2 + ymax/2) / len(bboxes)", "            center_y += (ymin/2 + ymax/2) / (len(bboxes) + 1)")],
+    "centre not the mean (equivalent for correctness: any split point works) - expected MISSED")
+
+# ------------------------------------------------------------------------------- C15
+mut("C15-string-compare", "C15", [(SER, "        if parse(ebb_version_string) >= parse(version_string):", "        if ebb_version_string >= version_string:")])
+mut("C15-ebb3-string-compare", "C15", [(SER3, "        if self.version_parsed >= parsed_version_string:", "        if str(self.version_parsed) >= str(parsed_version_string):")])
+mut("C15-no-second-probe", "C15", [(SER3, """                self.port.write('v\\r'.encode('ascii'))    # Request version string.
+                str_version = self.port.readline().decode('ascii').strip()
+                if str_version:
+                    if "EBB" in str_version:
+                        verified = True
+
+        except""", """                pass
+
+        except""")], "second identification attempt removed: a board that answers late is rejected")
+mut("C15-gate-gt", "C15", [(MOT, '        if not ebb_serial.min_version(port_name, "2.6.0"):', '        if ebb_serial.min_version(port_name, "2.6.0") is False:')],
+    "servo timeout sent when the version is unknown")
+mut("C15-revert-disconnect", "C15", [(SER3, "            self.disconnect() # Close the port; this board cannot be used.\n", "")], "revert of part of fix 97e1ec3")
+mut("C15-revert-none-version", "C15", [(SER3, """        else: # ebb_version_string is not a reasonable version number.
+            self.version = None
+            self.version_parsed = None
+            return""", """        else: # ebb_version_string is not a reasonable version number.
+            return""")], "revert of part of fix 97e1ec3 (stale version reused)")
+mut("C15-min-version-301", "C15", [(SER3, '    MIN_VERSION_STRING = "3.0.2"', '    MIN_VERSION_STRING = "3.0.1"')])
+mut("C15-cu-before-check", "C15", [(SER3, """        self.parse_version(str_version) # Parse firmware version
+""", """        self.parse_version(str_version) # Parse firmware version
+        self.port.write( "CU,10,1\\r".encode('ascii'))
+        self.port.readline()
+""")], "future-syntax command sent before the firmware version is checked")
+
+# ------------------------------------------------------------------------------- C16
+mut("C16-little-endian", "C16", [(SER3, "        bytes_sequence = value.to_bytes(4, byteorder='big', signed=True)", "        bytes_sequence = value.to_bytes(4, byteorder='little', signed=True)")])
+mut("C16-unsigned-read", "C16", [(SER3, "        return int.from_bytes(bytes_sequence, byteorder='big', signed=True)", "        return int.from_bytes(bytes_sequence, byteorder='big', signed=False)")])
+mut("C16-oldres-eq", "C16", [(MOT3, "            if old_res != resolution_2:", "            if old_res == resolution_2:")])
+mut("C16-preset", "C16", [(MOT3, "                self.command(f'EM,{resolution_2},{resolution_2}')", "                self.command(f'EM,{resolution_2},0')")],
+    "pre-set of the global resolution also disables motor 2 - final EM re-enables: EQUIVALENT? checked")
+mut("C16-resmap", "C16", [(MOT3, "        res_map = {16: 1, 8: 2, 4: 3, 2: 4, 1: 5, 0:0}", "        res_map = {16: 1, 8: 4, 4: 3, 2: 2, 1: 5, 0:0}")])
+mut("C16-no-increment", "C16", [(SER3, "            self.var_write(byte, start_index)\n            start_index += 1", "            self.var_write(byte, start_index)")])
+mut("C16-oldres-motor2", "C16", [(MOT3, "            if motor_res[1] != 0:\n                old_res = motor_res[1]\n", "")],
+    "prior state with only motor 2 enabled is read as 'no resolution set'")
+
+# ------------------------------------------------------------------------------- C18
+mut("C18-ge", "C18", [(PU, "    if value > upper_bound:\n        return upper_bound, True\n", "    if value >= upper_bound:\n        return upper_bound, True\n")])
+mut("C18-tol-sign", "C18", [(PU, "        if value < (lower_bound - tolerance):", "        if value < (lower_bound + tolerance):")])
+mut("C18-band-value", "C18", [(PU, "        return upper_bound, False  # Truncate with no error", "        return value, False  # Truncate with no error")])
+mut("C18-minmax", "C18", [(PU, "    return max(lower_bound, min(upper_bound, value))", "    return min(lower_bound, max(upper_bound, value))")])
+mut("C18-pib-tol", "C18", [(PU, "    if y > y_max + tolerance:\n        return False", "    if y > y_max - tolerance:\n        return False")])
+
+# ------------------------------------------------------------------------------- C19
+mut("C19-pass-order", "C19", [(SER, """        if port[1].startswith("EiBotBoard"):
+            ebb_port = port[0]  # Success; EBB found by name match.
+            break  # stop searching-- we are done.
+    if ebb_port is None:
+        for port in com_ports_list:
+            if port[2].startswith("USB VID:PID=04D8:FD92"):""", """        if port[2].startswith("USB VID:PID=04D8:FD92"):
+            ebb_port = port[0]  # Success; EBB found by name match.
+            break  # stop searching-- we are done.
+    if ebb_port is None:
+        for port in com_ports_list:
+            if port[1].startswith("EiBotBoard"):""")])
+mut("C19-no-break", "C19", [(SER3, """                ebb_port = port[0]  # Success; EBB found by name match.
+                break               # stop searching-- we are done.""", """                ebb_port = port[0]  # Success; EBB found by name match.""")],
+    "last description match wins")
+mut("C19-no-lower", "C19", [(SER3, "        p_2 = port[2].lower()\n\n        if (needle in p_2)", "        p_2 = port[2]\n\n        if (needle in p_2)")])
+mut("C19-slice10", "C19", [(SER, "            p_1 = p_1[11:]\n            if p_1.startswith(plower):", "            p_1 = p_1[10:]\n            if p_1.startswith(plower):")])
+mut("C19-listing-and", "C19", [(SER3, """        if port[1].startswith("EiBotBoard"):
+            port_has_ebb = True
+        elif port[2].startswith("USB VID:PID=04D8:FD92"):
+            port_has_ebb = True
+        if port_has_ebb:
+            ebb_ports_list.append(port)
+    if ebb_ports_list:
+        return ebb_ports_list
+    return None
+
+
+def list_named_ebbs():""", """        if port[1].startswith("EiBotBoard") and port[2].startswith("USB VID:PID=04D8:FD92"):
+            port_has_ebb = True
+        if port_has_ebb:
+            ebb_ports_list.append(port)
+    if ebb_ports_list:
+        return ebb_ports_list
+    return None
+
+
+def list_named_ebbs():""")])
+mut("C19-ser-len", "C19", [(SER, "                if len(temp_string) < 3:\n                    temp_string = None\n                if temp_string is not None:\n                    ebb_names_list.append(temp_string)\n                    name_found = True\n        if not name_found:\n            # Look for \"...SNR=XXXX\" pattern,",
+                            "                if len(temp_string) < 3:\n                    temp_string = None\n                if temp_string is not None:\n                    ebb_names_list.append(temp_string)\n        if not name_found:\n            # Look for \"...SNR=XXXX\" pattern,")],
+    "a Windows board with a SER= tag is listed twice (name and port)")
+
+# ------------------------------------------------------------------------------- C20
+mut("C20-amp-last", "C20", [(TU, """    new_text = input_text.replace('&','&amp;')
+    new_text = new_text.replace('<','&lt;')""", """    new_text = input_text.replace('<','&lt;')
+    new_text = new_text.replace('&','&amp;')""")])
+mut("C20-no-apos", "C20", [(TU, """    new_text = new_text.replace("'",'&apos;')\n""", "")])
+mut("C20-unrounded-60", "C20", [(TU, "    if duration_rounded < 60:", "    if duration < 60:")], "59.6 s printed as '60 Seconds'")
+mut("C20-divmod-unrounded", "C20", [(TU, "    m_elapsed, s_elapsed = divmod(duration_rounded, 60)", "    m_elapsed, s_elapsed = divmod(duration, 60)")])
+mut("C20-le-3600", "C20", [(TU, "    if duration_rounded < 3600:", "    if duration_rounded <= 3600:")])
+mut("C20-ms-999", "C20", [(TU, "        duration = duration / 1000.0", "        duration = duration / 1000.0 if duration > 10 else duration / 1000")],
+    "equivalent (same value) - expected MISSED")
